@@ -159,6 +159,33 @@ def run(ctx):
             ref = float(mp.ncdf(mp.mpf(z))); ctx.count()
             if not abs(g - ref) <= 64 * 2.3e-16 * ref * (1 + z * z) + 1e-300:
                 ctx.fail(f'C04/normal-cdf/{bk}64b', 'standard Normal cdf of a one-element tensor differs from the exact value in the far tail (subnormal result)', {'z': z, 'backend': [bk, '64b']}, g, ref)
+    # ---------------- integer-typed arguments (histogram counts read as integers, Python ints for centre and width) on the numpy backend,
+    # which computes on what it is given: the results must be the exact real-number values (no integer wrap-around in a square)
+    pyhf.set_backend('numpy', precision='64b'); tl = pyhf.tensorlib
+    for dt in (np.int32, np.int64):
+        xs = np.asarray([100000, 50000, 70003, 3, 2000000000 if dt is np.int64 else 2000000], dtype=dt); mus = np.asarray([0, 1, 3, 5, 7], dtype=dt)
+        for sig in (np.asarray([50000, 47000, 60001, 2, 100000 if dt is np.int64 else 70000], dtype=dt), 50000, 3.5):
+            with np.errstate(all='ignore'):
+                got = np.asarray(tl.normal_logpdf(xs, mus, sig), dtype=float)
+                gotn = np.asarray(tl.normal(xs, mus, sig), dtype=float)
+                gotd = np.asarray(pyhf.probability.Normal(mus, sig).log_prob(xs), dtype=float)
+            sg = np.broadcast_to(np.asarray(sig, dtype=float), xs.shape)
+            for k in range(len(xs)):
+                ref, mag = norm_ref(float(xs[k]), float(mus[k]), float(sg[k])); ctx.count()
+                inp = {'x': int(xs[k]), 'mu': int(mus[k]), 'sigma': float(sg[k]), 'dtype': np.dtype(dt).name, 'sigma_given_as': type(sig).__name__, 'backend': ['numpy', '64b']}
+                if not abs(got[k] - ref) <= 64 * 2.3e-16 * mag + 1e-300:
+                    ctx.fail('C04/normal-logpdf/numpy-integer-arguments', 'Normal log-density of integer-typed arguments differs from the exact value', inp, float(got[k]), ref)
+                if not (gotd[k] == got[k] or abs(gotd[k] - got[k]) <= 64 * 2.3e-16 * mag):
+                    ctx.fail('C04/normal-dist/numpy-integer-arguments', 'Normal distribution object disagrees with the primitive on integer-typed arguments', inp, float(gotd[k]), float(got[k]))
+                if -700 < ref < 700 and not abs(gotn[k] - math.exp(ref)) <= 1e-9 * math.exp(ref) * (1 + mag * 1e-6) + 1e-300:
+                    ctx.fail('C04/normal-nonlog/numpy-integer-arguments', 'non-log Normal variant is not the exponential of the log variant on integer-typed arguments', inp, float(gotn[k]), math.exp(ref))
+        ns = np.asarray([0, 3, 100000, 50000], dtype=dt); lam = np.asarray([2.5, 3.0, 100100.0, 49000.5])
+        with np.errstate(all='ignore'):
+            gp = np.asarray(tl.poisson_logpdf(ns, lam), dtype=float)
+        for k in range(len(ns)):
+            ref, mag = pois_ref(float(ns[k]), float(lam[k])); ctx.count()
+            if not abs(gp[k] - ref) <= 64 * 2.3e-16 * mag + 1e-300:
+                ctx.fail('C04/poisson-logpdf/numpy-integer-arguments', 'Poisson log-mass of integer-typed counts differs from the exact value', {'n': int(ns[k]), 'lam': float(lam[k]), 'dtype': np.dtype(dt).name}, float(gp[k]), ref)
     pyhf.set_backend('numpy', precision='64b')
     ctx.notes['worst_error_in_units_of_eps_times_terms'] = {k: round(v, 2) for k, v in worst.items()}
     ctx.sample({'poisson(n,lam)': pois[0], 'normal(x,mu,sigma)': norms[0], 'cdf_arg': cdfs[0]})
